@@ -736,3 +736,45 @@ func typeSpellingsAgree(c *Ctx, r *Report, rule string) {
 		r.cerr(rule, "zlexer.Next", "no lookup in StringToType found")
 	}
 }
+
+// subParserInheritsFS (F79): every parser a ZoneParser makes for text it reads on the caller's behalf ($INCLUDE files,
+// $GENERATE output) is given the caller's include file system before it is used: from each NewZoneParser call in a
+// ZoneParser method every way out passes SetIncludeFS with the receiver's fsys (or a store of it into the field).
+func subParserInheritsFS(c *Ctx, r *Report, rule string) {
+	r.rule(rule, 2, "every sub-parser of a ZoneParser is handed the include file system of its parent")
+	n := 0
+	isFsys := readsField("ZoneParser", "fsys")
+	for _, fn := range c.allFuncs() {
+		if fn.Signature.Recv() == nil || derefNamed(fn.Signature.Recv().Type()) == nil || derefNamed(fn.Signature.Recv().Type()).Obj().Name() != "ZoneParser" {
+			continue
+		}
+		for i, ci := range callsIn(fn, "NewZoneParser") {
+			call, ok := ci.(*ssa.Call)
+			if !ok {
+				continue
+			}
+			n++
+			construct := fmt.Sprintf("%s:sub-parser#%d", fnDisplay(fn), i+1)
+			r.fn(fnDisplay(fn))
+			okPass, at := mustPass(fn, call.Block(), instrIndex(call), func(in ssa.Instruction) bool {
+				switch t := in.(type) {
+				case *ssa.Call:
+					if calleeNameSSA(&t.Call) == "(ZoneParser).SetIncludeFS" && len(t.Call.Args) == 2 {
+						return anyIn(sliceOf(t.Call.Args[1]), isFsys)
+					}
+				case *ssa.Store:
+					return isFsys(t.Addr) && anyIn(sliceOf(t.Val), isFsys)
+				}
+				return false
+			})
+			where := ""
+			if at != nil && len(at.Instrs) > 0 {
+				where = c.pos(at.Instrs[len(at.Instrs)-1].Pos())
+			}
+			r.check(okPass, rule, construct, c.pos(call.Pos()), "SetIncludeFS(zp.fsys) on every way out", "the parser made at %s can be used (the function returns at %s) without the include file system of its parent: an $INCLUDE met by it is opened with os.Open, outside the fs.FS the caller confined the parser to with SetIncludeFS", c.pos(call.Pos()), where)
+		}
+	}
+	if n == 0 {
+		r.cerr(rule, "NewZoneParser", "no sub-parser construction found in a ZoneParser method")
+	}
+}
